@@ -402,7 +402,17 @@ func (c *VCtx) assumeGlobal(st, before *State) {
 
 // assertGlobal proves the guarantee: ginv hold now, gtrans hold for the step from before to now.
 func (c *VCtx) assertGlobal(st, before *State, tag string) {
+	ownPkg := ""
+	if c.top != nil {
+		ownPkg = fnPkgPath(c.top)
+	}
 	for i, g := range append(c.globalClauses(), c.stepClauses()...) {
+		if ownPkg != "" && g.pkg != ownPkg {
+			// the global clauses of an imported package talk about state private to that package (unexported
+			// fields, its ghost maps): only that package's own actions are checked against them
+			c.eng.assume("global invariants of imported packages are affected only by those packages' own (verified) actions")
+			continue
+		}
 		kind := "ginv"
 		if g.trans {
 			kind = "gtrans"
@@ -423,7 +433,11 @@ func (c *VCtx) assertGlobal(st, before *State, tag string) {
 		}
 		goal := c.translateBool(c.globalScope(g.pkg, st, before), g.cl.E)
 		c.exemptFresh = nil
-		c.proveP(c.pkgProps(g.pkg), fmt.Sprintf("%s.%s.%s", tag, kind, clauseLabel(g.cl, i)),
+		name := tag
+		if j := strings.Index(tag, " ["); j > 0 {
+			name = tag[:j] // (the bracketed part is for the description only)
+		}
+		c.proveP(c.pkgProps(g.pkg), fmt.Sprintf("%s.%s.%s", name, kind, clauseLabel(g.cl, i)),
 			fmt.Sprintf("global %s of %s after %s: %s", map[bool]string{false: "invariant", true: "two-state guarantee"}[g.trans], shortPkg(g.pkg), tag, g.cl.Src), st.pc, goal)
 	}
 }
